@@ -32,6 +32,7 @@ Cfgs == { [id |-> "full",   overlap |-> TRUE,  resv |-> {}],
           [id |-> "resvA",  overlap |-> FALSE, resv |-> {"a"}],
           [id |-> "other",  overlap |-> TRUE,  resv |-> {"b"}],
           [id |-> "netsX",  overlap |-> FALSE, resv |-> {}],      \* preserved networks, default prefixes
+          [id |-> "emptysalt", overlap |-> FALSE, resv |-> {}],   \* the empty string is a salt like any other
           [id |-> "nosalt", overlap |-> FALSE, resv |-> {}] }
 \* inputs: which reserved-word candidates occur in it, whether it has a $6$ secret
 Inputs == { [id |-> "mixed", mentions |-> {"a", "b"}, sha |-> TRUE],
